@@ -2,7 +2,16 @@ package message
 
 func init() {
 	vRegister("VH_C14_SplitStorage", VH_C14_SplitStorage)
+	vRegister("VH_C01_SplitStorage", VH_C01_SplitStorage)
 }
+
+// VH_C01_SplitStorage: the same run read for C01: what the typed layer handed out
+// for a multi-frame message is still what was sent once the whole message has been
+// read (a value returned earlier is not a window onto storage that later frames
+// overwrite).
+//
+//verif:unwind 128
+func VH_C01_SplitStorage() { VH_C14_SplitStorage() }
 
 // VH_C14_SplitStorage: values that straddle frame boundaries, with the receive
 // buffer behaving as the real bytes.Buffer does (vRealBuffer: real capacity
@@ -68,26 +77,29 @@ func VH_C14_SplitStorage() {
 		r.feed(wire[c:], true)
 	}
 	rm := NewMessageFromStream(r)
-	get := func(i int) {
-		g, err := rm.GetInt64(vhCtx)
-		vAssert(err == nil && g == vals[i], "int64-roundtrip-any-cut")
-	}
+	// everything is read first and compared afterwards: a value handed out earlier
+	// must still be intact when later frames have arrived
+	var got [8]int64
+	var gerr [8]error
 	for i := 0; i < 5; i++ {
-		get(i)
+		got[i], gerr[i] = rm.GetInt64(vhCtx)
 	}
 	gs, serr := rm.GetString(vhCtx)
-	vAssert(serr == nil && gs == text, "string-roundtrip-any-cut")
 	gb, berr := rm.GetBytes(vhCtx, 19)
+	for i := 5; i < 8; i++ {
+		got[i], gerr[i] = rm.GetInt64(vhCtx)
+	}
+	g32, err32 := rm.GetInt32(vhCtx)
+	gc, errc := rm.GetChar(vhCtx)
+	for i := 0; i < 8; i++ {
+		vAssert(gerr[i] == nil && got[i] == vals[i], "int64-roundtrip-any-cut")
+	}
+	vAssert(serr == nil && gs == text, "string-roundtrip-any-cut")
 	vAssert(berr == nil && len(gb) == 19, "bytes-roundtrip-any-cut")
 	if berr == nil && len(gb) == 19 {
-		vAssertBytesEqual(gb, raw, "bytes-roundtrip-any-cut")
+		vAssertBytesEqual(gb, raw, "bytes-still-intact-after-the-rest-of-the-message-was-read")
 	}
-	for i := 5; i < 8; i++ {
-		get(i)
-	}
-	g32, err := rm.GetInt32(vhCtx)
-	vAssert(err == nil && g32 == i32, "int32-roundtrip-any-cut")
-	gc, err := rm.GetChar(vhCtx)
-	vAssert(err == nil && gc == ch, "char-roundtrip-any-cut")
+	vAssert(err32 == nil && g32 == i32, "int32-roundtrip-any-cut")
+	vAssert(errc == nil && gc == ch, "char-roundtrip-any-cut")
 	vCover("split-values-roundtrip")
 }
